@@ -86,6 +86,8 @@ pub struct Cfg {
 
     // driver model
     pub cap: usize,
+    /// output-buffer capacity per connection (index = connection number - 1, last entry repeats); empty = `cap` everywhere
+    pub caps: Vec<usize>,
     pub connect_timeout_ms: u64,
     pub clock: Clock,
 
@@ -130,6 +132,7 @@ impl Cfg {
             client_receive_maximum: None,
             start_packet_id: None,
             cap: 4096,
+            caps: Vec::new(),
             connect_timeout_ms: 10_000,
             clock: Clock::Prompt,
             connack: ConnackTemplate::default(),
@@ -145,6 +148,10 @@ impl Cfg {
             closure: false,
             closure_steps: 60,
         }
+    }
+
+    pub fn cap_for(&self, connection: usize) -> usize {
+        if self.caps.is_empty() { self.cap } else { self.caps[(connection.max(1) - 1).min(self.caps.len() - 1)] }
     }
 
     pub fn connect_options(&self) -> ConnectOptions {
@@ -172,9 +179,9 @@ impl Cfg {
     }
 
     pub fn describe(&self) -> String {
-        format!("{}[{}] v={} offline={:?} drain1={} retries={:?} resolver={:?} ka={:?} ping_to={:?} rejoin={:?} cid={:?} cap={} clock={:?} connack={:?} submits={:?} max_submits={} max_conns={} budget={} depth={}",
+        format!("{}[{}] v={} offline={:?} drain1={} retries={:?} resolver={:?} ka={:?} ping_to={:?} rejoin={:?} cid={:?} cap={}{:?} clock={:?} connack={:?} submits={:?} max_submits={} max_conns={} budget={} depth={}",
             self.family, self.name, if self.mqtt311 { "3.1.1" } else { "5" }, self.offline, self.one_at_a_time, self.max_retries, self.resolver, self.keep_alive,
-            self.ping_timeout, self.rejoin, self.client_id, self.cap, self.clock, self.connack,
+            self.ping_timeout, self.rejoin, self.client_id, self.cap, self.caps, self.clock, self.connack,
             self.submits.iter().map(|s| s.label.clone()).collect::<Vec<_>>(), self.max_submits, self.max_conns, self.budget, self.max_depth)
     }
 }
